@@ -846,6 +846,381 @@ def oracle_single(ctx, budget):
     return found
 
 
+# ------------------------------------------------------------------ 2-D (num_eigens=None): capture, tie, oracle
+ALL_2D = ['asls', 'airpls', 'arpls', 'iarpls', 'psalsa', 'brpls', 'lsrpls', 'iasls', 'drpls', 'aspls']
+NO_EIGENS_ARG = ('iasls', 'drpls', 'aspls')
+HEADER2 = HEADER.replace('C06.Model.', 'C06.Model C06.Model2D.')
+
+
+class Capture2D:
+    """Wraps scipy.sparse.linalg.spsolve as bound in pybaselines.two_d._whittaker_utils and the
+    reweighting functions."""
+
+    def __init__(self):
+        self.calls = []
+        self.reweights = []
+
+    def __enter__(self):
+        import pybaselines.two_d._whittaker_utils as wu
+        import pybaselines._weighting as wt
+        self.wu, self.wt = wu, wt
+        self.saved = wu.spsolve
+        self.saved_w = {k: getattr(wt, k) for k in WEIGHT_FUNCS}
+        cap = self
+
+        def spsolve(lhs, rhs, *a, **kw):
+            rec = {'A': np.array(lhs.toarray(), dtype=float, copy=True), 'b': np.array(rhs, dtype=float, copy=True).ravel()}
+            cap.calls.append(rec)
+            rec['out'] = out = cap.saved(lhs, rhs, *a, **kw)
+            return out
+
+        wu.spsolve = spsolve
+        for k in WEIGHT_FUNCS:
+            def mk(f):
+                def g(*a, **kw):
+                    out = f(*a, **kw)
+                    cap.reweights.append(out)
+                    return out
+                return g
+            setattr(wt, k, mk(self.saved_w[k]))
+        return self
+
+    def __exit__(self, *exc):
+        self.wu.spsolve = self.saved
+        for k, v in self.saved_w.items():
+            setattr(self.wt, k, v)
+        return False
+
+
+def run_method2d(meth_name, y2, **kw):
+    from pybaselines import Baseline2D
+    M, N = y2.shape
+    f = Baseline2D(np.arange(M, dtype=float), np.arange(N, dtype=float), check_finite=False, assume_sorted=True)
+    if meth_name not in NO_EIGENS_ARG:
+        kw['num_eigens'] = None
+    with warnings.catch_warnings():
+        warnings.simplefilter('ignore')
+        return getattr(f, meth_name)(np.asarray(y2, dtype=float), **kw)
+
+
+def DtD_int(n, d):
+    D = np.eye(n, dtype=np.int64)
+    for _ in range(d):
+        D = D[1:] - D[:-1]
+    return D.T @ D
+
+
+def doc2_parts(method, M, N, lam, d, extra, w, alpha):
+    """Documented 2-D system as exact-integer Kronecker pieces: list of (coefficient, integer matrix)
+    plus per-row scaling vectors; returns a function building it in a number type."""
+    Pr = np.kron(DtD_int(M, d[0]), np.eye(N, dtype=np.int64))
+    Pc = np.kron(np.eye(M, dtype=np.int64), DtD_int(N, d[1]))
+    P1r = np.kron(DtD_int(M, 1), np.eye(N, dtype=np.int64))
+    P1c = np.kron(np.eye(M, dtype=np.int64), DtD_int(N, 1))
+
+    def build(conv):
+        w_ = np.array([conv(v) for v in w], dtype=object)
+        P = conv(lam[0]) * Pr.astype(object) + conv(lam[1]) * Pc.astype(object)
+        if method == 'iasls':
+            P1 = conv(extra[0]) * P1r.astype(object) + conv(extra[1]) * P1c.astype(object)
+            return np.diag(w_ * w_) + P1 + P, ('iasls', np.diag(w_ * w_) + P1)
+        if method == 'drpls':
+            P1 = P1r.astype(object) + P1c.astype(object)
+            return np.diag(w_) + P1 + (1 - conv(extra) * w_)[:, None] * P, ('wy', w_)
+        if method == 'aspls':
+            a_ = np.array([conv(v) for v in alpha], dtype=object)
+            return np.diag(w_) + a_[:, None] * P, ('wy', w_)
+        return np.diag(w_) + P, ('wy', w_)
+    return build
+
+
+def doc2_system(method, M, N, lam, d, extra, w, alpha, y, conv):
+    A, (kind, X) = doc2_parts(method, M, N, lam, d, extra, w, alpha)(conv)
+    y_ = np.array([conv(v) for v in y], dtype=object)
+    b = X.dot(y_) if kind == 'iasls' else X * y_
+    return A, b
+
+
+METH2_CODE = {'iasls': 1, 'drpls': 2, 'aspls': 3}
+
+
+def correspondence2d(ctx):
+    rng = ctx.rng
+    lits = []
+    nbad = 0
+    plan = []
+    for method in ALL_2D:
+        dpairs = [(2, 2), (2, 3), (3, 2)] if method in ('iasls', 'drpls') else [(1, 1), (1, 2), (2, 1), (2, 2), (3, 2), (2, 3)]
+        if method in ('airpls', 'arpls', 'iarpls', 'psalsa', 'brpls', 'lsrpls'):
+            dpairs = [rng.choice(dpairs)]
+        for (dr, dc) in dpairs:
+            for _ in range(ctx.n(2, 5)):
+                M = rng.randint(dr + 2, dr + ctx.n(4, 6))
+                N = rng.randint(dc + 2, dc + ctx.n(4, 6))
+                if M == N:
+                    N += 1
+                plan.append((method, M, N, dr, dc))
+    for (method, M, N, dr, dc) in plan:
+        n = M * N
+        lam = (2 ** rng.randint(0, 8), 2 ** rng.randint(0, 8))
+        y = [rng.randint(-30, 30) for _ in range(n)]
+        w = [rng.choice([1, 1, 2, 3, 0]) for _ in range(n)]
+        for k in rng.sample(range(n), n // 2):
+            w[k] = max(w[k], 1)
+        extra, alpha = 0, None
+        npass = 3 if method in ('asls', 'iasls') else 1
+        kw = dict(lam=(float(lam[0]), float(lam[1])), diff_order=(dr, dc), weights=np.array(w, dtype=float).reshape(M, N),
+                  max_iter=npass - 1, tol=-1.0)
+        if method == 'iasls':
+            l1 = 2 ** rng.randint(0, 4)
+            extra = (l1, l1)
+            kw.update(lam_1=float(l1), p=0.25)
+        elif method == 'asls':
+            kw['p'] = 0.25
+        elif method == 'psalsa':
+            kw['p'] = 0.25
+        elif method == 'drpls':
+            extra = rng.choice([0, 1, 1])
+            kw['eta'] = float(extra)
+            if extra:
+                w = [min(v, 1) for v in w]
+                kw['weights'] = np.array(w, dtype=float).reshape(M, N)
+        elif method == 'aspls':
+            alpha = [rng.choice([0, 1, 2, 3]) for _ in range(n)]
+            kw['alpha'] = np.array(alpha, dtype=float).reshape(M, N)
+        key = {'kind': 'capture2d', 'method': method, 'M': M, 'N': N, 'd': [dr, dc], 'lam': list(lam), 'extra': extra,
+               'y': y, 'w': w, 'alpha': alpha,
+               'kw': {k: (v.tolist() if isinstance(v, np.ndarray) else v) for k, v in kw.items()}}
+        with Capture2D() as cap:
+            exc = None
+            try:
+                run_method2d(method, np.array(y, dtype=float).reshape(M, N), **kw)
+            except Exception as e:  # noqa
+                exc = e
+        ctx.case(('cap2d', method, M, N, dr, dc, lam, tuple(y), tuple(w)), nontrivial=True, kind=f'capture2d:{method}:d=({dr},{dc})')
+        if not cap.calls:
+            ctx.broke(f'correspondence:capture2d:{method}', f'no spsolve call captured ({type(exc).__name__}: {exc}) for {method} {M}x{N}')
+            continue
+        used = []
+        for k, call in enumerate(cap.calls):
+            if k == 0:
+                wk = np.array(w, dtype=float)
+            else:
+                out = cap.reweights[k - 1] if k - 1 < len(cap.reweights) else None
+                if out is None or method not in ('asls', 'iasls'):
+                    break
+                wk = np.asarray(out[0] if isinstance(out, tuple) else out, dtype=float).ravel()
+            if dyadic_scale([wk], 16) is None:
+                break
+            used.append((call, wk))
+        S = dyadic_scale([u[1] for u in used], 16) or 1
+        S2 = S * S if method == 'iasls' else S
+        plist, bad = [], None
+        for k, (call, wk) in enumerate(used):
+            Ai, bi = exact_ints(call['A'], S2), exact_ints(call['b'], S2)
+            if Ai is None or bi is None or call['A'].shape != (n, n):
+                bad = f'pass {k}: captured spsolve input is not exactly representable / has shape {call["A"].shape}'
+                break
+            Adoc, bdoc = doc2_system(method, M, N, lam, (dr, dc), extra, [Fraction(float(v)) for v in wk], alpha, y, Fraction)
+            mism = [(p_, q_) for p_ in range(n) for q_ in range(n) if Fraction(Ai[p_][q_], S2) != Adoc[p_, q_]]
+            if mism:
+                p_, q_ = mism[0]
+                bad = (f'pass {k}: the matrix reaching spsolve has entry ({p_},{q_}) [(i,j)=({p_ // N},{p_ % N}), '
+                       f"(i',j')=({q_ // N},{q_ % N})] = {Fraction(Ai[p_][q_], S2)} but the documented Kronecker system has {Adoc[p_, q_]}")
+                break
+            mb = [p_ for p_ in range(n) if Fraction(bi[0][p_], S2) != bdoc[p_]]
+            if mb:
+                bad = f'pass {k}: right-hand side entry {mb[0]} = {Fraction(bi[0][mb[0]], S2)} but documented {bdoc[mb[0]]}'
+                break
+            plist.append({'w': [int(Fraction(float(v)) * S) for v in wk], 'A': Ai, 'b': bi[0]})
+        if bad:
+            nbad += 1
+            ctx.fail(f'assembly2d:{method}', f'2-D {method} ({M}x{N}, diff_order=({dr},{dc}), lam={lam}, extra={extra}): {bad}', key)
+            continue
+        code = METH2_CODE.get(method, 0)
+        lr, lc = lam
+        e1, e2 = (extra if isinstance(extra, tuple) else (extra, 0))
+        if method == 'iasls':
+            lr, lc, e1, e2 = lr * S2, lc * S2, e1 * S2, e2 * S2
+        elif code == 0:
+            lr, lc = lr * S, lc * S
+        wl = '[' + '; '.join(zlist(p_['w']) for p_ in plist) + ']'
+        exp = '[' + '; '.join(f'({zlist2(p_["A"])}, {zlist(p_["b"])})' for p_ in plist) + ']'
+        lits.append(f'({code}, {M}%nat, {N}%nat, {zl(lr)}, {zl(lc)}, {zl(e1)}, {zl(e2)}, {dr}%nat, {dc}%nat, {wl}, '
+                    f'{zlist(alpha or [])}, {zlist(y)}, {exp})')
+    ctx.traces += len(lits)
+    bad_any = False
+    per = 12
+    for k in range(0, len(lits), per):
+        sh = lits[k:k + per]
+        text = HEADER2 + """
+Definition case_t := (Z * nat * nat * Z * Z * Z * Z * nat * nat * list (list Z) * list Z * list Z
+                      * list (list (list Z) * list Z))%type.
+Fixpoint all2 {A B} (f : A -> B -> bool) (x : list A) (y : list B) : bool :=
+  match x, y with [] , [] => true | a :: x', b :: y' => f a b && all2 f x' y' | _, _ => false end.
+Definition ok (c : case_t) : bool :=
+  let '(m, M, N, lr, lc, e1, e2, dr, dc, wl, al, y, exp) := c in
+  let n := Z.of_nat M * Z.of_nat N in
+  let yf := of_list y in
+  let wfs := map of_list wl in
+  let calls :=
+    if m =? 0 then asls2 M N lr lc dr dc wfs yf
+    else if m =? 1 then iasls2 M N lr lc e1 e2 dr dc wfs yf
+    else if m =? 2 then drpls2 M N lr lc e1 dr dc wfs yf
+    else aspls2 M N lr lc dr dc (map (fun w => (w, of_list al)) wfs) yf in
+  match calls with
+  | None => false
+  | Some cs =>
+      all2 (fun k (e : list (list Z) * list Z) => zll_eqb (dense n (c2_lhs k)) (fst e) && zl_eqb (vec n (c2_rhs k)) (snd e)) cs exp
+      && all2 (fun (w : list Z) (e : list (list Z) * list Z) =>
+                 let wf := of_list w in
+                 zll_eqb (dense n (if m =? 0 then doc2_asls M N lr lc dr dc wf
+                                   else if m =? 1 then doc2_iasls M N lr lc e1 e2 dr dc wf
+                                   else if m =? 2 then doc2_drpls M N lr lc e1 dr dc wf
+                                   else doc2_aspls M N lr lc dr dc wf (of_list al))) (fst e)
+                 && zl_eqb (vec n (if m =? 1 then doc2_iasls_rhs M N e1 e2 wf yf else mulv wf yf)) (snd e))
+              wl exp
+  end.
+""" + f"""
+Definition cases : list case_t := [
+{chr(10).join('  ' + l + (';' if i + 1 < len(sh) else '') for i, l in enumerate(sh))}
+].
+Eval vm_compute in (bad ok cases).
+"""
+        vals = ctx.coq_eval(f'cap2d{k // per}', text)
+        if vals is None:
+            bad_any = True
+        elif not vals or not (vals[0].startswith('(0%nat, [])') or vals[0].startswith('(0, [])')):
+            bad_any = True
+            ctx.broke(f'correspondence:capture2d-shard{k // per}',
+                      f'2-D model/documented Kronecker system and captured spsolve input disagree: {vals}')
+    ob = 'correspondence:captured-spsolve-inputs-2d(model matrix, documented Kronecker system)'
+    ctx.obligations.append(ob)
+    if not bad_any and not nbad:
+        ctx.discharged.append(ob)
+    return len(lits)
+
+
+def oracle2d_case(case, K=2):
+    """[(what, backward error, size, info)] for one 2-D case (num_eigens=None)."""
+    method, M, N, d, lam, extra = case['method'], case['M'], case['N'], tuple(case['d']), tuple(case['lam']), case['extra']
+    n = M * N
+    y = np.array(case['y'], dtype=float)
+    w0 = None if case['w0'] is None else np.array(case['w0'], dtype=float)
+    a0 = None if case['a0'] is None else np.array(case['a0'], dtype=float)
+    kw = dict(lam=lam, diff_order=d)
+    if method == 'iasls':
+        kw['lam_1'] = extra
+    elif method == 'drpls':
+        kw['eta'] = extra
+    if a0 is not None:
+        kw['alpha'] = a0.reshape(M, N)
+    if w0 is not None:
+        kw['weights'] = w0.reshape(M, N)
+    out = []
+
+    def call(**more):
+        try:
+            with np.errstate(all='ignore'):
+                return run_method2d(method, y.reshape(M, N), **kw, **more)
+        except Exception:  # noqa
+            return None
+
+    def check(what, base, w, al, info):
+        base, w = np.ravel(base), np.ravel(w)
+        if not np.all(np.isfinite(base)) or not np.all(np.isfinite(w)) or (al is not None and not np.all(np.isfinite(al))):
+            return
+        ex = (extra, extra) if method == 'iasls' else extra
+        A, b = doc2_system(method, M, N, lam, d, ex, w, None if al is None else np.ravel(al), y, LD)
+        out.append((what, backward_error(A.astype(LD), base, b.astype(LD)), n, info))
+
+    w_in = np.ones(n) if w0 is None else w0
+    a_in = (np.ones(n) if a0 is None else a0) if method == 'aspls' else None
+    if case['mode'] == 'traj':
+        for k in range(K + 1):
+            res = call(max_iter=k, tol=-1.0)
+            if res is None:
+                break
+            base, par = res
+            if len(np.atleast_1d(par['tol_history'])) < k + 1:
+                check('returned-pair:early-exit', base, par['weights'], par.get('alpha'), f'max_iter={k}, tol=-1')
+                break
+            check(f'pass:{k}', base, w_in, a_in, f'max_iter={k}, tol=-1, pass {k}')
+            w_in = np.ravel(par['weights']).astype(float)
+            if method == 'aspls':
+                a_in = np.ravel(par['alpha']).astype(float)
+    elif case['mode'] == 'conv0':
+        res = call(max_iter=3, tol=1e300)
+        if res is not None:
+            base, par = res
+            if method != 'brpls' and len(np.atleast_1d(par['tol_history'])) == 1 and not np.array_equal(np.ravel(par['weights']), w_in):
+                out.append(('returned-pair:converged-weights-changed', float('inf'), n, 'max_iter=3, tol=1e300'))
+            check('returned-pair:converged', base, par['weights'], par.get('alpha'), 'max_iter=3, tol=1e300')
+    else:
+        mi = 20
+        res = call(max_iter=mi, tol=1e-3)
+        if res is not None:
+            base, par = res
+            hist = np.asarray(par['tol_history'], dtype=float)
+            if method == 'brpls':
+                check('returned-pair:brpls', base, par['weights'], None, f'max_iter={mi}, tol=1e-3')
+            elif hist.ndim == 1 and (len(hist) < mi + 1 or (len(hist) and hist[-1] < 1e-3)):
+                check('returned-pair:converged', base, par['weights'], par.get('alpha'), f'max_iter={mi}, tol=1e-3')
+    return out
+
+
+def oracle2d(ctx, budget, stats=None):
+    rng = ctx.rng
+    found = 0
+    for run_i in range(ctx.n(500, 3000) * budget):
+        method = ALL_2D[run_i % len(ALL_2D)]
+        dr, dc = rng.choice([1, 2, 2, 3]), rng.choice([1, 2, 2, 3])
+        if method in ('iasls', 'drpls'):
+            dr, dc = max(dr, 2), max(dc, 2)
+        big = ctx.tier == 'thorough' and rng.random() < 0.15
+        M = rng.randint(dr + 2, (25 if big else dr + 7))
+        N = rng.randint(dc + 2, (25 if big else dc + 7))
+        if M == N and rng.random() < 0.8:
+            N += 1
+        lam = (10 ** rng.uniform(-2, 6), 10 ** rng.uniform(-2, 6))
+        nrng = np.random.default_rng(rng.getrandbits(32))
+        t1, t2 = np.meshgrid(np.linspace(0, 1, M), np.linspace(0, 1, N), indexing='ij')
+        y = (2 + 3 * t1 + 2 * t2 + t1 * t2 + 20 * np.exp(-0.5 * (((t1 - 0.5) / 0.15) ** 2 + ((t2 - 0.4) / 0.2) ** 2))
+             + nrng.normal(0, 0.2, (M, N))).ravel()
+        if rng.random() < 0.25:
+            y = y * rng.choice([1e-3, 1e3])
+        w0 = nrng.uniform(0.05, 1.0, M * N) if rng.random() < 0.6 else None
+        extra, a0 = 0, None
+        if method == 'iasls':
+            extra = 10 ** rng.uniform(-5, 1)
+            if w0 is None:
+                w0 = np.ones(M * N)
+        elif method == 'drpls':
+            extra = rng.choice([0.0, 0.25, 0.5, 1.0])
+        elif method == 'aspls' and rng.random() < 0.4:
+            a0 = nrng.uniform(0.1, 1.0, M * N)
+        mode = rng.choice(['traj', 'traj', 'conv0', 'default'])
+        if method == 'brpls' and mode == 'traj':
+            mode = 'conv0'
+        case = {'kind': 'oracle2d', 'method': method, 'M': M, 'N': N, 'd': [dr, dc], 'lam': list(lam), 'extra': extra,
+                'y': [float(v) for v in y], 'w0': None if w0 is None else [float(v) for v in w0],
+                'a0': None if a0 is None else [float(v) for v in a0], 'mode': mode}
+        checks = oracle2d_case(case)
+        ctx.case(('oracle2d', method, M, N, dr, dc, mode, run_i), nontrivial=len(checks) > 0, kind=f'oracle2d:{method}:{mode}')
+        for (what, eta, nn, info) in checks:
+            bound = BOUND_C * nn * EPS
+            if stats is not None:
+                stats.append((eta / (nn * EPS), method, M, N, dr, dc, lam, what))
+            if not (eta <= bound):
+                found += 1
+                c = dict(case)
+                c['what'] = what
+                ctx.fail(f'residual2d:{method}:{what if what.startswith("returned-pair") else "pass"}',
+                         f'2-D {method} ({M}x{N}, diff_order=({dr},{dc}), lam=({lam[0]:.3g},{lam[1]:.3g}), num_eigens=None, {info}): '
+                         f'{what}: normwise backward error {eta:.3e} > {BOUND_C}*MN*eps = {bound:.3e}', c)
+    return found
+
+
 BRPLS_KEY = 'returned-pair:brpls:first-pass-early-exit-returns-data'
 BRPLS_WITNESS = {'kind': 'oracle', 'method': 'brpls', 'N': 3, 'd': 1, 'lam': 100.0, 'bs': 2, 'hp': False, 'extra': 0,
                  'y': [5.17478765233889, 25.080956802604167, 15.066639056671212], 'w0': None, 'a0': None,
@@ -890,6 +1265,7 @@ def run(ctx):
     ctx.translate(['GenBands'])
     ok = ctx.build_props()
     ncap = correspondence(ctx)
+    ncap2 = correspondence2d(ctx)
     budget = 1 if (ok and not ctx.broken and not ctx.violations) else 4
     # regression case (repaired in /repo by 694cbb3): brpls whose first reweighting exits early must return
     # the fitted baseline, not the input data; checked like any other oracle case, keyed as before
@@ -903,11 +1279,13 @@ def run(ctx):
                      f'{eta:.3e}', BRPLS_WITNESS)
     found = oracle_runs(ctx, budget)
     found += oracle_single(ctx, budget)
-    ctx.note(f'{ncap} captured runs compared exactly inside Coq; residual-certificate oracle budget x{budget}: {found} failing checks; '
+    found += oracle2d(ctx, budget)
+    ctx.note(f'{ncap} 1-D and {ncap2} 2-D captured runs compared exactly inside Coq; residual-certificate oracle budget x{budget}: {found} failing checks; '
              'utils.whittaker_smooth: theorem + exact tie + residual oracle; mpls/fabc(weights_as_mask)/rubberband/peak_filling: exact tie through the '
              'asls model with the reported weights/mask + captured-call oracle; custom_bc(lam)/jbcd: captured-call oracle only (lhs entrywise, '
              'solver residual, returned array = solver output; their right-hand sides are not re-derived); '
-             'NOT covered: 2-D Whittaker (Kronecker systems, eigendecomposition), non-integer eta in the Coq tie (eta=1/4,1/2 only through the oracle), '
+             '2-D: num_eigens=None path of all ten methods (theorems, exact spsolve-input tie on small grids, residual oracle); '
+             'NOT covered: the 2-D eigendecomposition path (C20), non-integer eta in the Coq tie (eta=1/4,1/2 only through the oracle), '
              'passes >= 2 of methods other than asls/iasls in the Coq tie (non-dyadic weights; covered by the oracle)')
 
 
@@ -920,6 +1298,10 @@ def replay(rep):
             return 1
         bad = [(w, e) for (w, e, n, _) in run_oracle_case(case) if not (e <= BOUND_C * n * EPS)]
         print('replay oracle:', bad or 'property holds on this input')
+        return 1 if bad else 0
+    if kind == 'oracle2d':
+        bad = [(w, e) for (w, e, n, _) in oracle2d_case(case) if not (e <= BOUND_C * n * EPS)]
+        print('replay oracle2d:', bad or 'property holds on this input')
         return 1 if bad else 0
     if kind == 'single':
         bad = [(w, msg) for (w, msg) in single_case(case) if msg is not None]
